@@ -32,6 +32,7 @@ Inductive action : Type :=
 Inductive err : Type :=
 | Leaf (id : N)
 | Custom (ty : N) (code : N)
+| CustomW (ty : N) (code : N) (cause : err)   (* a user error type with an Unwrap method *)
 | Wrapf (e : err)
 | Internal (t : ityp) (sp : list action) (np : list string) (orig : err)
 | PanicErr (info : N)
@@ -50,6 +51,7 @@ Definition id_misc : N := 99.          (* any other message-only error of the fr
 Definition unwrap_gen (fixed : bool) (e : err) : option err :=
   match e with
   | Wrapf e' => Some e'
+  | CustomW _ _ e' => Some e'
   | Internal _ _ _ o => if fixed then Some o else None
   | _ => None
   end.
@@ -60,6 +62,7 @@ Definition unwrap_v0 : err -> option err := unwrap_gen false.
 Fixpoint chain_gen (fixed : bool) (e : err) : list err :=
   e :: match e with
        | Wrapf e' => chain_gen fixed e'
+       | CustomW _ _ e' => chain_gen fixed e'
        | Internal _ _ _ o => if fixed then chain_gen fixed o else []
        | _ => []
        end.
@@ -91,6 +94,7 @@ Fixpoint err_eqb (a b : err) : bool :=
   match a, b with
   | Leaf i, Leaf j => N.eqb i j
   | Custom t c, Custom t' c' => N.eqb t t' && N.eqb c c'
+  | CustomW t c x, CustomW t' c' y => N.eqb t t' && N.eqb c c' && err_eqb x y
   | Wrapf x, Wrapf y => err_eqb x y
   | Internal t sp np o, Internal t' sp' np' o' =>
       ityp_eqb t t' && list_eqb action_eqb sp sp' && list_eqb String.eqb np np' && err_eqb o o'
@@ -120,7 +124,10 @@ Definition as_internal := as_internal_gen true.
 
 (* errors.As for a user error type *)
 Definition custom_code (ty : N) (e : err) : option N :=
-  match e with Custom t c => if N.eqb t ty then Some c else None | _ => None end.
+  match e with
+  | Custom t c | CustomW t c _ => if N.eqb t ty then Some c else None
+  | _ => None
+  end.
 Definition as_custom_gen (fixed : bool) (ty : N) (e : err) : option N := first_some (custom_code ty) (chain_gen fixed e).
 Definition as_custom := as_custom_gen true.
 
@@ -139,21 +146,18 @@ Definition is_interrupt_error_gen (fixed : bool) (e : err) : bool :=
 (* compose/error.go *)
 Definition new_graph_run_error (e : err) : err := Internal GraphRunError [] [] e.
 
-(* rewrite the fields of the first *internalError on the chain in place (the code mutates the
-   wrapper errors.As found) and keep everything that wraps it *)
-Fixpoint map_first_internal (f : list action -> list string -> list action * list string) (e : err) : err :=
-  match e with
-  | Wrapf e' => Wrapf (map_first_internal f e')
-  | Internal t sp np o => let (sp', np') := f sp np in Internal t sp' np' o
-  | _ => e
-  end.
-
-(* wrapGraphNodeError.  [fixed] = *internalError has Unwrap (F-C13). *)
+(* wrapGraphNodeError.  [fixed] = *internalError has Unwrap (F-C13).
+   err is itself the wrapper: its node path is extended in place.  err wraps a wrapper
+   (fmt.Errorf %w, typed error): err is kept whole under a new wrapper that carries the
+   accumulated paths (repair of F-C13b).  No wrapper on the chain: a fresh NodeRunError. *)
 Definition wrap_node_gen (fixed : bool) (key : string) (e : err) : err :=
   if is_interrupt_error_gen fixed e then e
-  else match as_internal_gen fixed e with
-       | None => Internal NodeRunError [] [key] e
-       | Some _ => map_first_internal (fun sp np => (sp, key :: np)) e
+  else match e with
+       | Internal t sp np o => Internal t sp (key :: np) o
+       | _ => match as_internal_gen fixed e with
+              | None => Internal NodeRunError [] [key] e
+              | Some (t, sp, np, _) => Internal t sp (key :: np) e
+              end
        end.
 Definition wrap_node := wrap_node_gen true.
 
@@ -170,9 +174,12 @@ Definition new_stream_wrapper_error (a : action) (e : err) : err := Internal Gra
 
 Definition wrap_stream_gen (fixed : bool) (a : action) (e : err) : err :=
   if is_interrupt_error_gen fixed e then e
-  else match as_internal_gen fixed e with
-       | None => Internal NodeRunError [a] [] e
-       | Some _ => map_first_internal (fun sp np => (a :: sp, np)) e
+  else match e with
+       | Internal t sp np o => Internal t (a :: sp) np o
+       | _ => match as_internal_gen fixed e with
+              | None => Internal NodeRunError [a] [] e
+              | Some (t, sp, np, _) => Internal t (a :: sp) np e
+              end
        end.
 Definition wrap_stream := wrap_stream_gen true.
 
@@ -466,7 +473,7 @@ Definition answers (F : forest) (p : paradigm) (cancel_before : bool) (in_item :
 Record proj : Type := mkProj {
   p_internal : option (ityp * list action * list string * bool);  (* errors.As for the wrapper: type, stream-wrapper path, node path, is-it-the-outermost *)
   p_is : list bool;          (* errors.Is for the sentinels below *)
-  p_as : list (option N);    (* errors.As for custom types 0 and 1 *)
+  p_as : list (option N);    (* errors.As for custom types 0, 1 and 2 (the wrapping one) *)
   p_panic : option N;        (* payload of a recovered panic on the chain *)
   p_interrupt : bool         (* ExtractInterruptInfo *)
 }.
@@ -480,7 +487,7 @@ Definition project_gen (fixed : bool) (e : err) : proj :=
                    | None => None
                    end;
      p_is := map (fun t => is_gen fixed t e) is_targets;
-     p_as := [as_custom_gen fixed 0 e; as_custom_gen fixed 1 e];
+     p_as := [as_custom_gen fixed 0 e; as_custom_gen fixed 1 e; as_custom_gen fixed 2 e];
      p_panic := as_panic_gen fixed e;
      p_interrupt := extract_interrupt_gen fixed e |}.
 Definition project := project_gen true.
